@@ -34,6 +34,27 @@ CHECKS["C01"] = dict(
          "only for type_request), derive_all/reduce_derivations (covered through C04)."),
    note=TB + "The model represents the grammar by the function giving a non-terminal's rules and computes cleaning by productivity; the code's work-list and dict order are not modelled (the rule-set comparison ties them).  Types are ground without sums so Python type equality is structural.  Known findings: n_gram < 2 cannot honour forbidden patterns; an empty language makes the constructor raise KeyError.",
    design="5/C01")
+CHECKS["C11"] = dict(
+   technique="Coq proof of the cached-evaluator model + extracted-model/implementation correspondence",
+   text=("Theorems (Props/C11.v, closed under the global context): for every application function, primitive table, skip set, program, input and "
+         "history of eval/clear_cache on one evaluator, cache on or off, each evaluation returns observe(eval_ref) = the compositional reference "
+         "value (head, then arguments left to right, then curried applications), None for a skipped exception, the exception otherwise "
+         "(C11_history_independent, C11_cached_eq_ref, C11_cache_irrelevant, C11_value/skip/raise, C11_compositional*, C11_first_failure).  Each run "
+         "re-checks the theorems and compares the extracted model with DSLEvaluator on random histories (5-40 operations, a failing sub-program "
+         "evaluated first and then a larger program containing it, 33 primitives incl. partial and higher-order ones) under several hash seeds."),
+   note=TB + "Skip set and use_cache are fixed per evaluator.  Program keys are structural equality (see C16).  Inputs equal under Python == share a cache table (1/True), so one history types its inputs alike.  Semantic functions are pure; no primitive missing from the semantics, no Lambda or Function-headed programs.",
+   design="5/C11")
+CHECKS["C10"] = dict(
+   technique="Coq proof of the solver-generator state machine + extracted-model/implementation correspondence",
+   text=("Theorems (Props/C10.v, closed, for a clock that never fires): the events of solve() under any next()/send() script are the protocol over "
+         "exactly the programs passing all examples, in enumeration order, cut after the first accepted one (C10_yields, C10_passing_exactly, C10_order, "
+         "C10_stop/resume/exhausted/reject_all); the 'programs' statistic grows by the rank of an accepted solution and by 0 otherwise (C10_stats*, "
+         "C10_tasks); an exception escapes at exactly the first program whose test raises (C10_raise); naive = cut-off whenever no evaluation raises, "
+         "and precisely related otherwise (C10_naive_cutoff*, C10_zero_examples); the evaluator cache left by earlier tasks is irrelevant "
+         "(C10_cache_irrelevant, via C11).  Each run re-checks them and compares the extracted model with NaivePBESolver/CutoffPBESolver driven by a "
+         "replay enumerator over several tasks sharing one evaluator."),
+   note=TB + "The timeout branch is modelled but neither exercised nor covered by a theorem.  Tasks are sequential on one solver and the first step is next().  A stub replay enumerator is used; program_probability and the time statistic are not compared.  Output equality is modelled on typed outputs.  RestartPBESolver is not modelled (its test module is a collection error in the baseline).",
+   design="5/C10")
 NOT_YET = {}
 def main():
     props = [json.loads(l) for l in open(os.path.join(V, "properties.jsonl"))]
